@@ -456,6 +456,15 @@ def aligned_files():
                 lines = pre_lines + front + [b"FILE 7 " + b"L" * (longc - 7), b"FILE 9 z"]
                 data = b"\n".join(lines) + b"\n"
                 out.append((data, sched, "cap%d%+d" % (cap, delta)))
+    # the first window (capacity 10240, nothing scripted, so the alignment does not depend on how the code under test
+    # grows its buffer): more lengths of the line that does not fit, and the prefix delivered in one, two or three reads
+    for delta in (-1, 0, 1):
+        front = _pad_lines(5120 + delta - 26)
+        for longc in (5121, 6000, 8000, 10239, 20000, 40000, 71680, 81919, 163840, 200000, 1 << 20):
+            lines = [mod] + front + [b"PUBLIC 10 0 " + b"L" * (longc - 12), b"FILE 9 z"]
+            data = b"\n".join(lines) + b"\n"
+            for sched in ([], ["26"], ["26", str(len(front[0]) + 1)]):
+                out.append((data, sched, "first%+d" % delta))
     return out
 
 
